@@ -387,6 +387,9 @@ func (g *genCtx) subProgram(name string, depth int) *Program {
 	}
 	last := sub.Steps[len(sub.Steps)-1]
 	fields := []Field{F("r", StepRef(last.ID, "outputs", "success", "a")), F("first", StepRef("b0", "outputs", "success"))}
+	// every loop body has an output field of its own name: two loops over different files must never be
+	// mistaken for one another (schemas, results)
+	fields = append(fields, F("of_"+strings.NewReplacer("/", "_", ".", "_").Replace(name), Ref("input", "v")))
 	if depth < g.prof.MaxDepth && g.pct(60, "nested_loop") {
 		dir := ""
 		if g.pct(50, "nested_dir") {
